@@ -375,7 +375,88 @@ class ConstJudge(Judge):
     shrink = None
 
 
+class DivJudge(Judge):
+    """`divchk` requests carry the Lean model's verdict; the implementation must reply `ok`."""
+
+    def nontrivial(self, req, impl):
+        return True
+
+    def decide(self, run, harness, req, impl, model):
+        t = req.split()
+        if len(t) < 9 or model != "ok":
+            return None       # the certificate itself did not re-check: not a verdict on the code
+        code = unhex(t[4]).decode("utf-8", "replace")
+        return (f"program {code!r} width {t[1]} env {t[2]} {t[3]} is certified '{t[5]}' by the canonical "
+                f"semantics but: {impl[:500]}")
+
+    def key(self, req):
+        t = req.split()
+        return unhex(t[4]).decode("utf-8", "replace") if len(t) > 4 else req
+
+    def shrink(self, run, harness, req, impl, model):
+        t = req.split()
+        code = unhex(t[4])
+
+        def build(c):
+            # re-certify the candidate with the model
+            cert = run.driver.ask([f"bfcert {t[1]} 60000 {t[2]} {t[3]} {hexs(c)}"])[0].split()
+            if not cert or cert[0] not in ("halts", "diverges"):
+                return None
+            if cert[0] == "halts":
+                return f"divchk {t[1]} {t[2]} {t[3]} {hexs(c)} halts {cert[2]} - 0"
+            lp = run.driver.ask([f"bftrace {t[1]} 150000 {t[2]} {t[3]} {hexs(c)}"])[0].split()
+            return f"divchk {t[1]} {t[2]} {t[3]} {hexs(c)} diverges {cert[2]} {lp[1] if len(lp) > 1 else '-'} 150000"
+
+        def interesting(c):
+            if not balanced(c):
+                return False
+            r2 = build(c)
+            if not r2:
+                return False
+            imp, mod = one_case(run, harness, r2, "shrink")
+            return mod == "ok" and imp.startswith("FAIL")
+
+        c2 = shrink_bytes(code, interesting, max_tests=150)
+        r2 = build(c2) or req
+        imp, mod = one_case(run, harness, r2, "shrink")
+        return r2, imp, mod
+
+
+class WfJudge(Judge):
+    """`bcwf` requests: the model's verdict on real bytecode must be `ok`; anything else is a C11 violation."""
+
+    def decide(self, run, harness, req, impl, model):
+        t = req.split()
+        src = unhex(t[4]).decode("utf-8", "replace") if len(t) > 4 else "?"
+        return (f"bytecode of program {src!r} (width {t[1]}, {t[2]} registers, level {t[3]}) is rejected by the verified "
+                f"contract checker: {model} condition fails; bytecode: {' '.join(t[5:])[:600]}")
+
+    def key(self, req):
+        t = req.split()
+        return unhex(t[4]).decode("utf-8", "replace") if len(t) > 4 else req
+
+
+class BcRunJudge(ProgramJudge):
+    """`bcrun`: threaded interpreter vs. `Bc.run` on the same bytecode. A disagreement breaks the tie of the
+    bytecode semantics; whether the property fails is decided by the search (end-to-end vs canonical)."""
+
+    def nontrivial(self, req, impl):
+        p = impl.split()
+        return len(p) > 1 and p[1] != "-"
+
+    def decide(self, run, harness, req, impl, model):
+        return None
+
+    shrink = None
+
+    def key(self, req):
+        return req[:200]
+
+
 JUDGES = {
+    "wf": WfJudge(),
+    "bcrun": BcRunJudge(),
+    "div": DivJudge(),
     "const": ConstJudge(),
     "cell": DataJudge(2, "cell", spec=cell_spec),
     "mem": DataJudge(2, "mem"),
